@@ -180,12 +180,7 @@ def singleton_rows(sources):
             flat = re.sub(r"\s+", " ", gbody).strip()
             if re.fullmatch(r"return %s ?;" % IDENT_, flat) and not re.search(r"\bstatic\b[^;(]*\b%s\s*;" % flat.split()[1].rstrip(";"), body):
                 continue                              # returns a predefined handle (ComposeMPIOp): no state
-            hm = re.search(r"if ?\( ?! ?(%s) ?\)|if ?\( ?(%s) ?== ?MPI_DATATYPE_NULL ?\)" % (IDENT_, IDENT_), flat)
-            if not hm:
-                raise TranslateError("%s%s::%s(): no `if (!handle)` / `if (handle == MPI_DATATYPE_NULL)` test: %s" % (cname, spec_n, getter, flat[:160]))
-            var = hm.group(1) or hm.group(2)
-            if not re.search(r"return \*? ?%s ?; ?$" % var, flat):
-                raise TranslateError("%s%s::%s() does not end in `return %s;`" % (cname, spec_n, getter, var))
+            var, _block = lazy_getter("%s%s::%s()" % (cname, spec_n, getter), gbody)
             decl = r"static\s+(?:inline\s+)?(?:MPI_Datatype|std::unique_ptr\s*<\s*MPI_Op\s*>)\s+%s\b" % var
             body_wo_getter = body if not gm else body[:gm.start()] + body[balanced(body, gm.end() - 1):]
             if re.search(decl, body_wo_getter) or re.search(decl, gbody):
@@ -206,6 +201,83 @@ def singleton_rows(sources):
     if not rows:
         raise TranslateError("no lazily created MPI handle found")
     return rows
+
+
+# ------------------------------------------------------------------------------------------------
+# R5: the shapes of "create on first use" (normalised to: handle, construction block)
+# ------------------------------------------------------------------------------------------------
+_NULLS = ("MPI_DATATYPE_NULL", "nullptr", "NULL", "0")
+
+
+def _null_test(cond):
+    """condition of an `if` -> (handle, True if the condition holds when the handle is NOT yet created) or None"""
+    c = _nows(cond)
+    while c.startswith("(") and balanced(c, 0, "(", ")") == len(c):
+        c = c[1:-1]
+    m = re.fullmatch(r"!(%s)" % IDENT_, c)
+    if m:
+        return m.group(1), True
+    m = re.fullmatch(r"(%s)" % IDENT_, c)
+    if m and c not in _NULLS:
+        return m.group(1), False
+    m = re.fullmatch(r"(%s)(==|!=)(%s)" % (IDENT_, IDENT_), c)
+    if m:
+        a, op, b = m.groups()
+        if b in _NULLS and a not in _NULLS:
+            return a, op == "=="
+        if a in _NULLS and b not in _NULLS:
+            return b, op == "=="
+    return None
+
+
+def lazy_getter(where, gbody):
+    """body of a getter that creates a handle on first use -> (handle variable, text of the construction block).
+    Recognised spellings (all mean `if (handle is null) { block } return handle;`):
+      [decls] if (<null test>) { block } return [*]handle;        <null test>: !h, h == NULL, NULL == h (NULL: MPI_DATATYPE_NULL, nullptr)
+      [decls] if (<null test>) stmt; return [*]handle;
+      [decls] if (<non-null test>) [{] return [*]handle; [}] block return [*]handle;      (guard clause; test: h, h != NULL, NULL != h)
+    where [decls] are declarations of function-local statics / references (kept in front of the block for the caller).
+    Anything else fails loudly."""
+    g = gbody.strip()
+    im = re.search(r"\bif\s*\(", g)
+    if not im:
+        raise TranslateError("%s: no `if (handle is null)` test: %s" % (where, re.sub(r"\s+", " ", g)[:160]))
+    pre = g[:im.start()].strip()
+    if pre and not all(re.match(r"(static\b|auto\s*&|MPI_Datatype\s*&|std::unique_ptr\s*<\s*MPI_Op\s*>\s*&)", q.strip())
+                       for q in pre.split(";") if q.strip()):
+        raise TranslateError("%s: statements in front of the `if (handle is null)` test: %s" % (where, re.sub(r"\s+", " ", pre)[:160]))
+    p0 = g.index("(", im.start())
+    p1 = balanced(g, p0, "(", ")")
+    nt = _null_test(g[p0 + 1:p1 - 1])
+    if not nt:
+        raise TranslateError("%s: no `if (!handle)` / `if (handle == MPI_DATATYPE_NULL)` test (or its negation as a guard clause): %s"
+                             % (where, re.sub(r"\s+", " ", g)[:160]))
+    handle, when_null = nt
+    rest = g[p1:].lstrip()
+    if rest.startswith("{"):
+        e = balanced(rest, 0)
+        then, tail = rest[1:e - 1], rest[e:]
+    else:
+        e = rest.index(";") + 1
+        then, tail = rest[:e], rest[e:]
+    if re.match(r"\s*else\b", tail):
+        raise TranslateError("%s: `else` branch of the null test" % where)
+    ret = r"return\s*\*?\s*%s\s*;" % re.escape(handle)
+    if when_null:
+        block = then
+        if not re.fullmatch(r"\s*%s\s*" % ret, tail):
+            raise TranslateError("%s: code after the construction block other than `return %s;`: %s"
+                                 % (where, handle, re.sub(r"\s+", " ", tail).strip()[:160]))
+    else:
+        if not re.fullmatch(r"\s*%s\s*" % ret, then):
+            raise TranslateError("%s: the guard clause does not `return %s;`: %s" % (where, handle, re.sub(r"\s+", " ", then).strip()[:160]))
+        m = re.search(r"%s\s*$" % ret, tail)
+        if not m:
+            raise TranslateError("%s: does not end in `return %s;`" % (where, handle))
+        block = tail[:m.start()]
+    if re.search(r"\breturn\b", block):
+        raise TranslateError("%s: `return` inside the construction block" % where)
+    return handle, block
 
 
 # ------------------------------------------------------------------------------------------------
@@ -314,6 +386,9 @@ class _TypeProg:
     def seq(self, text, what):
         """`name` (array) or `&name` (scalar / one element) -> list of element keys"""
         t = _nows(text)
+        m = re.fullmatch(r"&(%s)\[0\]|(%s)\.data\(\)" % (IDENT_, IDENT_), t)
+        if m and (m.group(1) or m.group(2)) in self.arr:
+            t = m.group(1) or m.group(2)
         if t.startswith("&"):
             return [t[1:]]
         if t in self.arr:
@@ -328,7 +403,33 @@ class _TypeProg:
         return t
 
     # --- statements ------------------------------------------------------------------------------
+    def addrval(self, text, st):
+        """value of an address / offset expression: `x`, `x - y`, `offsetof(Self, member)`"""
+        t = _nows(text)
+        while t.startswith("(") and balanced(t, 0, "(", ")") == len(t):
+            t = t[1:-1]
+        m = re.fullmatch(r"offsetof\((.*),(%s)\)" % IDENT_, t)
+        if m:
+            if not self.is_self(m.group(1)):
+                self.fail("offsetof into another type: " + st)
+            return ("off", m.group(2))
+        m = re.fullmatch(r"(%s(?:\[\d+\])?)-(%s(?:\[\d+\])?)" % (IDENT_, IDENT_), t)
+        if m:
+            return self.difference(self.val.get(m.group(1)), self.val.get(m.group(2)), st)
+        m = re.fullmatch(r"%s(?:\[\d+\])?" % IDENT_, t)
+        if m and isinstance(self.val.get(t), tuple):
+            return self.val[t]
+        self.fail("address / offset expression not understood: " + st)
+
     def step(self, st):
+        # qualifiers that do not change the value of a local
+        st = re.sub(r"^(?:(?:const|constexpr) )+", "", st)
+        st = re.sub(r"^(int|MPI_Aint|MPI_Datatype) (?:const|constexpr) ", r"\1 ", st)
+        m = re.fullmatch(r"\{(.*)\}", st)
+        if m:                                             # a nested block
+            for q in self.statements(m.group(1)):
+                self.step(q)
+            return
         m = re.fullmatch(r"static_assert ?\(.*\)", st)
         if m:
             return
@@ -342,6 +443,12 @@ class _TypeProg:
         if m:
             self.val[m.group(1)] = int(m.group(2))
             return
+        m = re.fullmatch(r"std::array ?< ?(int|MPI_Aint|MPI_Datatype) ?, ?(\d+) ?> (%s) ?=? ?(\{.*\})?" % IDENT_, st)
+        if m:                                             # std::array<T,N> a = {...}  ==  T a[N] = {...}
+            b = m.group(4)
+            if b and b.startswith("{{") and b.endswith("}}"):
+                b = b[1:-1]
+            st = "%s %s[%s]%s" % (m.group(1), m.group(3), m.group(2), " = " + b if b else "")
         m = re.fullmatch(r"int (%s) ?\[ ?(\d+) ?\] ?= ?\{(.*)\}" % IDENT_, st)
         if m:
             items = split_top(m.group(3))
@@ -354,11 +461,25 @@ class _TypeProg:
         m = re.fullmatch(r"MPI_Aint (.*)", st)
         if m:
             for d in split_top(m.group(1)):
-                dm = re.fullmatch(r"(%s) ?(?:\[ ?(\d+) ?\])?" % IDENT_, d)
+                dm = re.fullmatch(r"(%s) ?(?:\[ ?(\d+) ?\])? ?(?:= ?(.*))?" % IDENT_, d)
                 if not dm:
                     self.fail("declaration not understood: " + st)
-                if dm.group(2):
-                    self.arr[dm.group(1)] = int(dm.group(2))
+                name, n, init = dm.groups()
+                if n:
+                    self.arr[name] = int(n)
+                    if init is not None:
+                        im = re.fullmatch(r"\{(.*)\}", init.strip())
+                        items = split_top(im.group(1)) if im else None
+                        if items is None or len(items) != int(n):
+                            self.fail("initialiser length: " + st)
+                        for i, it in enumerate(items):
+                            self.val["%s[%d]" % (name, i)] = self.addrval(it, st)
+                elif init is not None:
+                    self.val[name] = self.addrval(init, st)
+            return
+        m = re.fullmatch(r"MPI_Datatype (%s) ?= ?(.*)" % IDENT_, st)
+        if m and not m.group(2).lstrip().startswith("{"):
+            self.val[m.group(1)] = self.typ(m.group(2))
             return
         m = re.fullmatch(r"MPI_Datatype (%s) ?\[ ?(\d+) ?\] ?= ?\{(.*)\}" % IDENT_, st)
         if m:
@@ -388,15 +509,23 @@ class _TypeProg:
             for i in range(self.arr[m.group(2)]):
                 self.subtract("%s[%d]" % (m.group(2), i), m.group(4), st)
             return
+        # the same as an index loop: for (int i = 0; i < N; ++i) arr[i] -= base;
+        m = re.fullmatch(r"for ?\( ?(?:int|unsigned|unsigned int|std::size_t|size_t) (%s) ?= ?0 ?; ?(%s) ?(?:<|!=) ?(\d+) ?; ?(?:\+\+ ?(%s)|(%s) ?\+\+) ?\)"
+                         r" ?\{? ?(%s) ?\[ ?(%s) ?\] ?-= ?(%s) ?;? ?\}?" % ((IDENT_,) * 7), st)
+        if m and m.group(6) in self.arr:
+            i, i2, n, i3, i4, arr, i5, base = m.groups()
+            if not (i == i2 == (i3 or i4) == i5) or int(n) != self.arr[arr]:
+                self.fail("index loop does not run over the whole array: " + st)
+            for k in range(self.arr[arr]):
+                self.subtract("%s[%d]" % (arr, k), base, st)
+            return
         m = re.fullmatch(r"(%s(?: ?\[ ?\d+ ?\])?) ?-= ?(%s)" % (IDENT_, IDENT_), st)
         if m:
             self.subtract(self.lvalue(m.group(1)), m.group(2), st)
             return
-        m = re.fullmatch(r"(%s(?: ?\[ ?\d+ ?\])?) ?= ?offsetof ?\((.*), ?(%s) ?\)" % (IDENT_, IDENT_), st)
-        if m:
-            if not self.is_self(m.group(2)):
-                self.fail("offsetof into another type: " + st)
-            self.val[self.lvalue(m.group(1))] = ("off", m.group(3))
+        m = re.fullmatch(r"(%s(?: ?\[ ?\d+ ?\])?) ?= ?(.*)" % IDENT_, st)
+        if m and not re.match(r"(int|MPI_\w+|auto|using)$", m.group(1).split("[")[0].strip()) and " " not in m.group(1).strip():
+            self.val[self.lvalue(m.group(1))] = self.addrval(m.group(2), st)
             return
         m = re.fullmatch(r"(MPI_Type_\w+) ?\((.*)\)", st)
         if m:
@@ -409,12 +538,14 @@ class _TypeProg:
             return
         self.fail("statement outside the grammar: " + st)
 
-    def subtract(self, key, base, st):
-        a, b = self.val.get(key), self.val.get(base)
+    def difference(self, a, b, st):
         if not (isinstance(a, tuple) and a[0] == "addr" and isinstance(b, tuple) and b[0] == "addr" and b[2] is None
                 and a[1] == b[1] and a[2] is not None):
             self.fail("displacement is not (address of a member) - (address of the same object): " + st)
-        self.val[key] = ("off", a[2])
+        return ("off", a[2])
+
+    def subtract(self, key, base, st):
+        self.val[key] = self.difference(self.val.get(key), self.val.get(base), st)
 
     def out(self, arg, st):
         t = _nows(arg)
@@ -496,16 +627,9 @@ def type_programs(sources):
                 fam = re.sub(r"\b%s\b" % re.escape(q), "$%d" % (k + 1), fam)
             if fam not in TYPEPROG_NAMES:
                 raise TranslateError("datatype construction of an unknown class template: " + fam)
-            g = gbody.strip()
-            hm = re.match(r"if\s*\(\s*(%s)\s*==\s*MPI_DATATYPE_NULL\s*\)\s*\{" % IDENT_, g)
-            if not hm:
-                raise TranslateError("%s::getType(): does not start with `if (handle == MPI_DATATYPE_NULL) {`" % fam)
-            end = balanced(g, hm.end() - 1)
-            block, rest = g[hm.end():end - 1], re.sub(r"\s+", " ", g[end:]).strip()
-            if rest != "return %s;" % hm.group(1):
-                raise TranslateError("%s::getType(): code after the construction block: %s" % (fam, rest))
+            handle, block = lazy_getter("%s::getType()" % fam, gbody)
             selftype = spec_n[1:-1]
-            progs.append((TYPEPROG_NAMES[fam], fam, _TypeProg(fam, params, selftype, block, hm.group(1)).result()))
+            progs.append((TYPEPROG_NAMES[fam], fam, _TypeProg(fam, params, selftype, block, handle).result()))
     missing = [f for f in TYPEPROG_NAMES if f not in [p[1] for p in progs]]
     if missing:
         raise TranslateError("datatype construction not found for " + ", ".join(missing))
